@@ -7,10 +7,10 @@
   `none` means: not a single well-formed literal (unterminated, closes early, malformed escape,
   raw newline in a short literal, NUL in the source).
 
-  Also the three *producers* of literal text used by typedpy's schema→code generator:
-  `wrapVal` (`commons.wrap_val`: plain quoting), `docWrap` (the docstring template of
-  `schema_to_struct_code`) and `pyRepr` (`repr(str)`, which is what `f"{a_list}"` applies to the
-  list elements: enum values, `_required`, list/dict defaults).
+  Also the two *producers* of literal text used by typedpy's schema→code generator:
+  `docWrap` (the docstring template of `schema_to_struct_code` with the escaping of
+  `_docstring_text`) and `pyRepr` (`repr(str)`: `_str_literal` for patterns and `str` defaults, and
+  what `f"{a_list}"` applies to list elements: enum values, `_required`, list/dict defaults).
 
   Not modelled (stated assumptions, avoided by the generators): `\N{name}` escapes (need the Unicode
   name table; the model answers `none`), escapes denoting lone surrogates (not representable as a
@@ -107,28 +107,29 @@ def atEnd (long : Bool) (q : Char) (r : List Char) : Bool :=
   if long then r == [q, q] else r.isEmpty
 
 /-- one character in the normal state; `recN`/`recE` are the results for the rest of the source
-    continued in state `norm` / `esc` -/
-def normCase (long : Bool) (q c : Char) (r : List Char) (recN recE : Option (List Char)) :
+    continued in state `norm` / `esc` (thunks: the compiled driver is strict, and evaluating both
+    continuations at every character would be exponential) -/
+def normCase (long : Bool) (q c : Char) (r : List Char) (recN recE : Unit → Option (List Char)) :
     Option (List Char) :=
   if isClose long q c r then (if atEnd long q r then some [] else none)
-  else if c = cBS then recE
+  else if c = cBS then recE ()
   else if c = cLF ∧ long = false then none
-  else emit c recN
+  else emit c (recN ())
 
 /-- one character right after a backslash; `recN` = rest continued in `norm`,
     `recH n` = rest continued inside an `n`-digit hex escape, `recO d` = inside an octal escape -/
-def escCase (c : Char) (recN : Option (List Char)) (recH : Nat → Option (List Char))
+def escCase (c : Char) (recN : Unit → Option (List Char)) (recH : Nat → Option (List Char))
     (recO : Nat → Option (List Char)) : Option (List Char) :=
   match escKind c with
-  | .drop => recN
-  | .char d => emit d recN
+  | .drop => recN ()
+  | .char d => emit d (recN ())
   | .hex n => recH n
   | .oct d => recO d
   | .bad => none
-  | .keep => emit cBS (emit c recN)
+  | .keep => emit cBS (emit c (recN ()))
 
 /-- one hex digit of an escape with `left+1` digits to go -/
-def hexCase (left acc : Nat) (c : Char) (recN : Option (List Char))
+def hexCase (left acc : Nat) (c : Char) (recN : Unit → Option (List Char))
     (recH : Nat → Option (List Char)) : Option (List Char) :=
   match hexVal c with
   | none => none
@@ -136,25 +137,27 @@ def hexCase (left acc : Nat) (c : Char) (recN : Option (List Char))
     if left = 0 then
       (match ofCode (acc * 16 + d) with
        | none => none
-       | some ch => emit ch recN)
+       | some ch => emit ch (recN ()))
     else recH (acc * 16 + d)
 
 /-- the body of a literal opened with `q` (long = triple-quoted), from state `st`; the result is
     the denoted string if the literal closes exactly at the end of the source -/
 def lexS (long : Bool) (q : Char) : St → List Char → Option (List Char)
   | _, [] => none
-  | .norm, c :: r => normCase long q c r (lexS long q .norm r) (lexS long q .esc r)
+  | .norm, c :: r =>
+    normCase long q c r (fun _ => lexS long q .norm r) (fun _ => lexS long q .esc r)
   | .esc, c :: r =>
-    escCase c (lexS long q .norm r) (fun n => lexS long q (.hex (n - 1) 0) r)
+    escCase c (fun _ => lexS long q .norm r) (fun n => lexS long q (.hex (n - 1) 0) r)
       (fun d => lexS long q (.oct 2 d) r)
   | .hex left acc, c :: r =>
-    hexCase left acc c (lexS long q .norm r) (fun a => lexS long q (.hex (left - 1) a) r)
+    hexCase left acc c (fun _ => lexS long q .norm r) (fun a => lexS long q (.hex (left - 1) a) r)
   | .oct left acc, c :: r =>
     match (if left = 0 then none else octVal c) with
     | some d => lexS long q (.oct (left - 1) (acc * 8 + d)) r
     | none =>
       -- the escape ends here; `c` is an ordinary character of the normal state
-      emit (Char.ofNat acc) (normCase long q c r (lexS long q .norm r) (lexS long q .esc r))
+      emit (Char.ofNat acc)
+        (normCase long q c r (fun _ => lexS long q .norm r) (fun _ => lexS long q .esc r))
 termination_by structural _ cs => cs
 
 /-- universal newlines: CPython's tokenizer reads `\r\n` and a lone `\r` as `\n`
@@ -186,15 +189,29 @@ def pyLexStr (src : String) : Option String := (lexSrc src.toList).map String.of
 
 /-! ### producers of literal text in the generator -/
 
-/-- `commons.wrap_val` on a `str`: `f"'{v}'"` — no escaping -/
-def wrapL (s : List Char) : List Char := cSQ :: (s ++ [cSQ])
-def wrapVal (s : String) : String := String.ofList (wrapL s.toList)
-
 def indent4 : List Char := [' ', ' ', ' ', ' ']
 
-/-- the docstring literal of `schema_to_struct_code`: `"""\n    {description}\n    """` -/
+/-- `_docstring_text`: `.replace("\\", "\\\\").replace('"""', '\\"\\"\\"').replace("\r", "\\r")` as one
+    left-to-right pass (the three replacements act on disjoint characters and `str.replace` is
+    leftmost, non-overlapping).  `k` = number of following characters that belong to a `"""`
+    whose first quote has just been escaped; in that state a `"` is written `\"`.
+    (A non-quote character in state `k > 0` cannot occur; it is treated as in state 0.) -/
+def docEsc : Nat → List Char → List Char
+  | _, [] => []
+  | k, c :: r =>
+    if c = cDQ then
+      (if 0 < k then cBS :: cDQ :: docEsc (k - 1) r
+       else if r.take 2 == [cDQ, cDQ] then cBS :: cDQ :: docEsc 2 r
+       else cDQ :: docEsc 0 r)
+    else if c = cBS then cBS :: cBS :: docEsc 0 r
+    else if c = cCR then cBS :: 'r' :: docEsc 0 r
+    else c :: docEsc 0 r
+termination_by structural _ cs => cs
+
+/-- the docstring literal of `schema_to_struct_code`:
+    `"""\n    {_docstring_text(description)}\n    """` -/
 def docWrapL (d : List Char) : List Char :=
-  [cDQ, cDQ, cDQ, cLF] ++ indent4 ++ d ++ [cLF] ++ indent4 ++ [cDQ, cDQ, cDQ]
+  [cDQ, cDQ, cDQ, cLF] ++ indent4 ++ docEsc 0 d ++ [cLF] ++ indent4 ++ [cDQ, cDQ, cDQ]
 def docWrap (d : String) : String := String.ofList (docWrapL d.toList)
 /-- the `__doc__` the template is meant to produce -/
 def docValueL (d : List Char) : List Char := [cLF] ++ indent4 ++ d ++ [cLF] ++ indent4
